@@ -1,8 +1,8 @@
 reg("C02",
     name="C02_sim", src="harness/C02_sim.cpp",
     anchor_files=["src/hgraph/runtime/executor.cpp", "src/hgraph/runtime/graph.cpp", "src/hgraph/runtime/node.cpp", "include/hgraph/runtime/node_scheduler.h"],
-    quick=dict(defs=dict(KNODES=2, JEVALS=2, DMAX=3, WMAX=5, NDD=2, NNS=2), symx=dict(shards=16, **{"max-wall": 900, "shard-depth": 10})),
-    thorough=dict(defs=dict(KNODES=2, JEVALS=2, DMAX=4, WMAX=8, NDD=3, NNS=2), symx=dict(shards=16, **{"max-wall": 3000, "shard-depth": 8})),
+    quick=dict(defs=dict(KNODES=2, JEVALS=2, DMAX=2, WMAX=4, NDD=1, NNS=1), symx=dict(shards=16, **{"max-wall": 900, "shard-depth": 10})),
+    thorough=dict(defs=dict(KNODES=2, JEVALS=2, DMAX=3, WMAX=5, NDD=2, NNS=2), symx=dict(shards=16, **{"max-wall": 3000, "shard-depth": 8})),
     reach=["end", "three_cycles", "request_beyond_end", "input_tick_while_own_wakeup_pending", "outer_tick_while_nested_wakeup_pending"],
     bounds="a nested child graph (real finish_subgraph + single_nested_graph_node) whose sampler reads node 0 passively and re-schedules itself NNS times by symbolic deltas; an input-driven node that also schedules itself by a symbolic delta on every input tick (re-arm branch of node.cpp) reading node 0; KNODES self-scheduling source nodes, each evaluated at most JEVALS+1 times, each re-scheduling by a symbolic delta in [0,DMAX] us (0 = no request); "
            "start offset symbolic in [0,1000] us after MIN_ST; window length symbolic in [1,WMAX] us",
